@@ -69,6 +69,11 @@ func c08Bundles() map[string][]string {
 				"\n{/template}\n/** @param x */\n{template .fails}\nbefore{$x}{1 < 'a'}after\n{/template}\n",
 			"{namespace p.two}\n/**\n * @param? label\n * @param? a\n */\n{template .show}\n<{$label ?: 'none'}|fb:{$a ?: 'na'}>{let $label: 'inner' /}{$label}\n{/template}\n",
 		},
+		// two messages with one id (same text, same placeholder name) but different placeholder contents
+		"msgs": {
+			"{namespace z}\n/**\n * @param? b\n */\n{template .one}\n{msg desc=\"d\"}Hello {$b.label}!{/msg}\n{/template}\n" +
+				"/**\n * @param? b\n * @param? m\n */\n{template .two}\n{msg desc=\"d\"}Hello {$m.label}!{/msg}{if false}{$b}{/if}\n{/template}\n",
+		},
 		"loops": {
 			"{namespace q}\n/**\n * @param l\n * @param? m\n */\n{template .main}\n{foreach $x in $l}{foreach $y in $x}{$y}{ifempty}-{/foreach}|{/foreach}after" +
 				"{for $i in range(2)}{call .row}{param i: $i /}{/call}{/for}{call .row}{param i: 9 /}{param m: $m /}{/call}{call .row data=\"all\"}{param i: 7 /}{/call}\n{/template}\n" +
@@ -113,7 +118,7 @@ func checkC08(c *Ctx) {
 	}
 	maxLen := 3
 	bundles := c08Bundles()
-	for _, bname := range []string{"core", "loops"} {
+	for _, bname := range []string{"core", "loops", "msgs"} {
 		files := bundles[bname]
 		for _, cf := range configs {
 			bname, files, cf := bname, files, cf
